@@ -29,7 +29,7 @@ for n in $names; do
   out=$(VERIF_DEV_REPO=$WT PYTHONPATH=$WT ./check $id --tier quick 2>&1 | grep '^VIOLATION' | head -1)
   git -C $WT apply -R $d/patch.diff
   without=$(cd $d && PYTHONPATH=$WT /venv/bin/python -m pytest -q -p no:cacheprovider demo_test.py 2>&1 | tail -1)
-  git -C $V checkout -- lean/Generated 2>/dev/null
+  git -C $V checkout -- lean/Generated evidence 2>/dev/null
   echo "$n: suite[$suite] with[$with] without[$without] check[$out]"
   python3 - "$d" "$head" "$suite" "$with" "$without" "$out" <<'PY'
 import json, sys
